@@ -1542,10 +1542,12 @@ calls that matter for synchronisation and data flow, the lock regions and (for d
 conditions, in source order.  A re-ordering, a dropped call or a changed condition breaks these
 obligations even when no sampled input or schedule shows a difference; the check then searches for
 a failing input. -/
-theorem c10_shape_router_Router_Stop :
-    Shapes.network_router_Router_Stop =
-   ["host.Stop", "r.Unpause", "verifC10Point", "r.Lock", "c.Close", "r.Unlock", "verifC10Point",
-     "wg.Wait", "verifC10Point"] := rfl
+theorem c10_shape_router_Router_Stop_b4 :
+    Shapes.network_router_Router_Stop_b4 =
+   ["host.Stop", "assign:err=r.host.Stop()", "r.Unpause", "verifC10Point", "r.Lock",
+     "assign:r.isClosed=true", "range:_,arr:=r.connections{", "range:_,c:=arr{", "c.Close",
+     "assign:err:=c.Close()", "if:(err!=nil)", "}", "}", "r.Unlock", "verifC10Point", "wg.Wait",
+     "verifC10Point", "if:(err!=nil)", "return:xerrors.Errorf(\"\",err)", "return:nil"] := rfl
 
 theorem c10_shape_router_Router_Start :
     Shapes.network_router_Router_Start =
@@ -1553,13 +1555,15 @@ theorem c10_shape_router_Router_Start :
      "verifC10Point", "r.registerConnection", "c.Close", "verifC10Point",
      "r.launchHandleRoutine", "host.Listen"] := rfl
 
-theorem c10_shape_router_Router_registerConnection :
-    Shapes.network_router_Router_registerConnection =
+theorem c10_shape_router_Router_registerConnection_b4 :
+    Shapes.network_router_Router_registerConnection_b4 =
    ["r.Lock", "defer:r.Unlock", "if:r.isClosed", "return:xerrors.Errorf(\"\",ErrClosed)",
-     "remote.GetID", "if:okc", "remote.GetID", "remote.GetID", "return:nil"] := rfl
+     "remote.GetID", "assign:_,okc:=r.connections[remote.GetID()]", "if:okc", "remote.GetID",
+     "assign:r.connections[remote.GetID()]=append(r.connections[remote.GetID()],c)",
+     "return:nil"] := rfl
 
-theorem c10_shape_router_Router_launchHandleRoutine :
-    Shapes.network_router_Router_launchHandleRoutine =
+theorem c10_shape_router_Router_launchHandleRoutine_b4 :
+    Shapes.network_router_Router_launchHandleRoutine_b4 =
    ["r.Lock", "defer:r.Unlock", "if:r.isClosed", "return:xerrors.Errorf(\"\",ErrClosed)",
      "wg.Add", "go{", "r.handleConn", "}", "return:nil"] := rfl
 
@@ -1576,66 +1580,79 @@ theorem c10_shape_router_Router_handleConn :
      "r.triggerConnectionErrorHandlers", "r.triggerConnectionErrorHandlers",
      "r.triggerConnectionErrorHandlers", "verifC10Point", "msgTraffic.updateRx", "r.Dispatch"] := rfl
 
-theorem c10_shape_Server_Close :
-    Shapes.server_Server_Close =
-   ["c.Lock", "send:closeitChannel", "c.Unlock", "Router.Stop", "WebSocket.stop",
-     "overlay.Close", "serviceManager.closeDatabase"] := rfl
+theorem c10_shape_Server_Close_b4 :
+    Shapes.server_Server_Close_b4 =
+   ["c.Lock", "if:c.IsStarted", "send:closeitChannel", "assign:c.IsStarted=false", "c.Unlock",
+     "Router.Stop", "assign:err:=c.Router.Stop()", "if:(err!=nil)",
+     "assign:err=xerrors.Errorf(\"\",err)", "WebSocket.stop", "overlay.Close",
+     "serviceManager.closeDatabase", "assign:err=c.serviceManager.closeDatabase()",
+     "if:(err!=nil)", "assign:err=xerrors.Errorf(\"\",err)", "return:err"] := rfl
 
-theorem c10_shape_treeStorage_Close :
-    Shapes.treestorage_treeStorage_Close =
-   ["ts.Lock", "close:c", "ts.Unlock", "wg.Wait"] := rfl
+theorem c10_shape_treeStorage_Close_b4 :
+    Shapes.treestorage_treeStorage_Close_b4 =
+   ["ts.Lock", "assign:ts.closed=true", "range:k,c:=ts.cancellations{", "close:c", "}",
+     "ts.Unlock", "wg.Wait"] := rfl
 
-theorem c10_shape_Overlay_Close :
-    Shapes.overlay_Overlay_Close =
-   ["instancesLock.Lock", "defer:instancesLock.Unlock", "tni.Token", "o.nodeDelete",
-     "treeStorage.Close"] := rfl
+theorem c10_shape_Overlay_Close_b4 :
+    Shapes.overlay_Overlay_Close_b4 =
+   ["instancesLock.Lock", "defer:instancesLock.Unlock", "assign:o.closed=true",
+     "range:_,tni:=o.instances{", "tni.Token", "o.nodeDelete", "}", "treeStorage.Close"] := rfl
 
-theorem c10_shape_Overlay_newTreeNodeInstanceFromToken :
-    Shapes.overlay_Overlay_newTreeNodeInstanceFromToken =
-   ["newTreeNodeInstance", "instancesLock.Lock", "defer:instancesLock.Unlock", "if:o.closed",
-     "tni.closeDispatch", "return:tni", "tok.ID", "return:tni"] := rfl
+theorem c10_shape_Overlay_newTreeNodeInstanceFromToken_b4 :
+    Shapes.overlay_Overlay_newTreeNodeInstanceFromToken_b4 =
+   ["newTreeNodeInstance", "assign:tni:=newTreeNodeInstance(o,tok,tn,io)", "instancesLock.Lock",
+     "defer:instancesLock.Unlock", "if:o.closed", "tni.closeDispatch", "return:tni",
+     "assign:o.instances[tok.ID()]=tni", "return:tni"] := rfl
 
-theorem c10_shape_TreeNodeInstance_dispatchMsgReader :
-    Shapes.treenode_TreeNodeInstance_dispatchMsgReader =
-   ["msgDispatchQueueMutex.Lock", "msgDispatchQueueMutex.Unlock", "msgDispatchQueueMutex.Unlock",
-     "n.dispatchMsgToProtocol", "msgDispatchQueueMutex.Unlock", "recv:msgDispatchQueueWait"] := rfl
+theorem c10_shape_TreeNodeInstance_dispatchMsgReader_b4 :
+    Shapes.treenode_TreeNodeInstance_dispatchMsgReader_b4 =
+   ["for:{", "msgDispatchQueueMutex.Lock", "if:n.closing", "msgDispatchQueueMutex.Unlock",
+     "return:", "if:(len(n.msgDispatchQueue)>0)", "assign:msg:=n.msgDispatchQueue[0]",
+     "assign:n.msgDispatchQueue=n.msgDispatchQueue[1:]", "msgDispatchQueueMutex.Unlock",
+     "n.dispatchMsgToProtocol", "assign:err:=n.dispatchMsgToProtocol(msg)", "if:(err!=nil)",
+     "else", "msgDispatchQueueMutex.Unlock", "recv:msgDispatchQueueWait", "}"] := rfl
 
 theorem c10_shape_local_LocalManager_send :
     Shapes.network_local_LocalManager_send =
    ["lm.Lock", "defer:lm.Unlock", "send:incomingQueue"] := rfl
 
-theorem c10_shape_tcp_TCPListener_listen :
-    Shapes.network_tcp_TCPListener_listen =
+theorem c10_shape_tcp_TCPListener_listen_b4 :
+    Shapes.network_tcp_TCPListener_listen_b4 =
    ["listeningLock.Lock", "if:(t.closed==true)", "listeningLock.Unlock", "return:nil",
-     "listeningLock.Unlock", "listener.Accept", "if:(err!=nil)", "recv:quit",
-     "send:quitListener", "return:nil", "fn"] := rfl
+     "assign:t.listening=true", "listeningLock.Unlock", "for:{", "listener.Accept",
+     "assign:conn,err:=t.listener.Accept()", "if:(err!=nil)", "recv:quit", "send:quitListener",
+     "return:nil", "continue", "assign:c:=TCPConn{conn:conn,suite:t.suite}", "fn", "}"] := rfl
 
-theorem c10_shape_tcp_TCPListener_Stop :
-    Shapes.network_tcp_TCPListener_Stop =
+theorem c10_shape_tcp_TCPListener_Stop_b4 :
+    Shapes.network_tcp_TCPListener_Stop_b4 =
    ["listeningLock.Lock", "defer:listeningLock.Unlock", "close:quit", "if:(t.listener!=nil)",
-     "listener.Close", "if:(err!=nil)", "if:(handleError(err)!=ErrClosed)",
-     "return:xerrors.Errorf(\"\",handleError(err))", "if:t.listening", "recv:quitListener",
-     "recv:After()", "time.After", "return:nil"] := rfl
+     "listener.Close", "assign:err:=t.listener.Close()", "if:(err!=nil)",
+     "if:(handleError(err)!=ErrClosed)", "return:xerrors.Errorf(\"\",handleError(err))",
+     "if:t.listening", "for:!stop{", "recv:quitListener", "assign:stop=true", "recv:After()",
+     "time.After", "continue", "}", "assign:t.quit=make(conv)", "assign:t.listening=false",
+     "assign:t.closed=true", "return:nil"] := rfl
 
 theorem c10_shape_tcp_TCPListener_Listen :
     Shapes.network_tcp_TCPListener_Listen =
    ["go{", "fn", "}", "t.listen"] := rfl
 
-theorem c10_shape_local_LocalListener_Listen :
-    Shapes.network_local_LocalListener_Listen =
+theorem c10_shape_local_LocalListener_Listen_b4 :
+    Shapes.network_local_LocalListener_Listen_b4 =
    ["ll.Lock", "if:ll.listening", "ll.Unlock", "return:xerrors.Errorf(\"\",ll.addr)",
-     "manager.setListening", "ll.Unlock", "recv:quit", "return:nil"] := rfl
+     "assign:ll.quit=make(conv)", "manager.setListening", "assign:ll.listening=true",
+     "ll.Unlock", "recv:quit", "return:nil"] := rfl
 
-theorem c10_shape_local_LocalListener_Stop :
-    Shapes.network_local_LocalListener_Stop =
+theorem c10_shape_local_LocalListener_Stop_b4 :
+    Shapes.network_local_LocalListener_Stop_b4 =
    ["ll.Lock", "defer:ll.Unlock", "if:!ll.listening", "return:nil", "manager.unsetListening",
-     "close:quit", "return:nil"] := rfl
+     "close:quit", "assign:ll.listening=false", "return:nil"] := rfl
 
-theorem c10_shape_Server_Start :
-    Shapes.server_Server_Start =
-   ["InformServerStarted", "time.Now", "go{", "Router.Start", "}", "go{", "WebSocket.start", "}",
-     "Router.Listening", "WebSocket.Listening", "time.Sleep", "c.Lock", "c.Unlock",
-     "recv:closeitChannel"] := rfl
+theorem c10_shape_Server_Start_b4 :
+    Shapes.server_Server_Start_b4 =
+   ["InformServerStarted", "time.Now", "assign:c.started=time.Now()", "if:!c.Quiet", "go{",
+     "Router.Start", "}", "go{", "WebSocket.start", "}",
+     "for:(!c.Router.Listening()||!c.WebSocket.Listening()){", "time.Sleep", "}", "c.Lock",
+     "assign:c.IsStarted=true", "c.Unlock", "recv:closeitChannel"] := rfl
 
 theorem c10_shape_WebSocket_stop :
     Shapes.websocket_WebSocket_stop =
@@ -1646,6 +1663,10 @@ theorem c10_shape_serviceManager_closeDatabase :
     Shapes.service_serviceManager_closeDatabase =
    ["if:(s.db!=nil)", "db.Close", "if:(err!=nil)", "if:s.delDb", "s.dbFileName", "os.Remove",
      "if:(err!=nil)", "return:xerrors.Errorf(\"\",err)", "return:nil"] := rfl
+
+theorem c10_shape_router_Router_Closed_b4 :
+    Shapes.network_router_Router_Closed_b4 =
+   ["r.Lock", "defer:r.Unlock", "return:r.isClosed"] := rfl
 
 
 end C10
